@@ -159,3 +159,29 @@ pub fn judge_body(l: Layout, raw: u128, tr: usize, prec: Option<usize>, s: &str)
     }
     Ok((neg, body.to_string()))
 }
+
+/// Lenient form of the padding rule, used when the strict rule does not match: the flags may
+/// distribute padding differently, but stripping fill characters and pad zeros must leave exactly
+/// sign ++ prefix ++ body, and the total length must be max(width, unpadded length).
+pub fn pad_lenient(neg: bool, body: &str, spec: &Spec, got: &str) -> bool {
+    let sign = if neg {
+        "-"
+    } else if spec.plus {
+        "+"
+    } else {
+        ""
+    };
+    let prefix = if spec.alt { ["", "", "0b", "0o", "0x", "0x"][spec.tr] } else { "" };
+    let unpadded = sign.len() + prefix.len() + body.chars().count();
+    let want_len = spec.width.map(|w| w.max(unpadded)).unwrap_or(unpadded);
+    if got.chars().count() != want_len {
+        return false;
+    }
+    let al = ALIGNS[spec.align];
+    let fill = if al.len() == 2 { al.chars().next().unwrap() } else { ' ' };
+    let core = got.trim_start_matches(fill).trim_end_matches(fill);
+    let Some(rest) = core.strip_prefix(sign) else { return false };
+    let Some(rest) = rest.strip_prefix(prefix) else { return false };
+    // pad zeros (if any) sit in front of the body
+    rest == body || (rest.len() > body.len() && rest.ends_with(body) && rest[..rest.len() - body.len()].bytes().all(|b| b == b'0'))
+}
